@@ -366,6 +366,12 @@ func (sc *scenario) mkArg(o optSpecC) am.Arg {
 			fs = append(fs, sc.Funcs[id].fn)
 		}
 		return am.ConverterFunc(fs...)
+	case "genfail":
+		return am.ConverterGen(func(v am.Value) (*am.Func, error) { return nil, fmt.Errorf("generator failed") })
+	case "gennil":
+		return am.ConverterGen(func(v am.Value) (*am.Func, error) { return nil, nil })
+	case "namednil":
+		return am.Named(o.Name, nil)
 	case "convnil":
 		return am.Converter(nil)
 	case "convbad":
@@ -386,6 +392,12 @@ func (o optSpecC) line() string {
 		return fmt.Sprintf("opt typed %d:%d", o.Ty, o.Vid)
 	case "typedsub":
 		return fmt.Sprintf("opt typedsub %d %d %s", o.Ty, o.Vid, e2s(o.Sub))
+	case "namednil":
+		return fmt.Sprintf("opt named %s nil", e2s(o.Name))
+	case "genfail":
+		return "opt gen fail"
+	case "gennil":
+		return "opt gen nil"
 	case "conv", "convfunc":
 		var s []string
 		for _, id := range o.Fids {
@@ -598,6 +610,8 @@ func (sc *scenario) classifyErr(err error) string {
 			return "e0 typednil"
 		}
 		return fmt.Sprintf("e0 %d", e0.ID)
+	case strings.Contains(err.Error(), "generator failed"):
+		return "generr"
 	case strings.Contains(err.Error(), "arg cannot be nil"):
 		return "nilarg"
 	case strings.Contains(err.Error(), "This is a bug"):
